@@ -13,7 +13,7 @@ use std::fmt::Debug;
 use std::sync::{Arc, Mutex};
 
 /// the scalar types the harness instantiates the library at
-pub trait Scalar: Float + Debug + Send + 'static {
+pub trait Scalar: Float + Debug + 'static {
     fn of(x: f64) -> Self;
     fn f(self) -> f64;
     /// work meter of the scalar's arithmetic (0 for machine floats)
@@ -32,10 +32,12 @@ impl Scalar for f64 {
     }
 }
 
-pub trait DynView<T: Float>: View<T> + Send {
+// No `Send` bound on purpose: a change that puts an `Rc` (a buffer shared between a view and its clones)
+// into a view must still compile against the harness, because detecting it is C17's job.
+pub trait DynView<T: Float>: View<T> {
     fn clone_box(&self) -> Box<dyn DynView<T>>;
 }
-impl<T: Float, V: View<T> + Clone + Send + 'static> DynView<T> for V {
+impl<T: Float, V: View<T> + Clone + 'static> DynView<T> for V {
     fn clone_box(&self) -> Box<dyn DynView<T>> {
         Box::new(self.clone())
     }
@@ -43,10 +45,15 @@ impl<T: Float, V: View<T> + Clone + Send + 'static> DynView<T> for V {
 
 pub struct Dyn<T: Float>(pub Box<dyn DynView<T>>);
 impl<T: Float> Dyn<T> {
-    pub fn new<V: View<T> + Clone + Send + 'static>(v: V) -> Dyn<T> {
+    pub fn new<V: View<T> + Clone + 'static>(v: V) -> Dyn<T> {
         Dyn(Box::new(v))
     }
 }
+// Replicas are handed between OS threads by C17's Migrate events. Exactly one thread runs at any time
+// (the sender blocks on the reply channel, which also orders the memory accesses), so moving a value that
+// is not `Send` (e.g. one holding an `Rc`) is sound here even when its clone lives on another thread.
+unsafe impl<T: Float> Send for Dyn<T> {}
+
 impl<T: Float> Clone for Dyn<T> {
     fn clone(&self) -> Self {
         Dyn(self.0.clone_box())
